@@ -394,13 +394,19 @@ func (proxy *PgProxy) handleClientPacket(ctx context.Context, packet *PacketHand
 				WithError(err).Errorln("Can't fetch query string from Query packet")
 			return false, err
 		}
+		// If that's some sort of a packet with a query inside it,
+		// process inline data if necessary and remember the query to handle future response.
+		censored, err := proxy.handleQueryPacket(ctx, packet, logger)
+		if err != nil || censored {
+			// A query rejected by AcraCensor is never sent to the database, so no response will ever
+			// remove it from the pending list: it must not be queued.
+			return censored, err
+		}
 		queryPacket := newQueryPacket(query)
 		if err = proxy.protocolState.pendingQueryPackets.Add(queryPacket); err != nil {
 			return false, err
 		}
-		// If that's some sort of a packet with a query inside it,
-		// process inline data if necessary and remember the query to handle future response.
-		return proxy.handleQueryPacket(ctx, packet, logger)
+		return false, nil
 
 	case BindStatementPacket:
 		// Bound query parameters may contain inline data that we need to process.
@@ -827,6 +833,14 @@ func (proxy *PgProxy) ProxyDatabaseConnection(ctx context.Context, errCh chan<- 
 				// Process the ReadyForQuery packet to reset the state of the
 				// protocol and do necessary cleanup
 				if err := proxy.handleDatabasePacket(packetCtx, packetHandler, logger); err != nil {
+					errCh <- base.NewDBProxyError(err)
+					return
+				}
+			} else {
+				// The skipped packets still belong to the response of the pending query: let the protocol
+				// state observe them, so that CommandComplete/ErrorResponse removes the query from the
+				// pending list. Otherwise rows of the next query are processed with this query's settings.
+				if err := proxy.protocolState.HandleDatabasePacket(packetHandler); err != nil {
 					errCh <- base.NewDBProxyError(err)
 					return
 				}
